@@ -1,2 +1,49 @@
-// Package c19 decides C19 (see DESIGN.md section 4). Not built yet.
+// Package c19 decides C19 (source maps are complete, in range and point at the
+// right Go lines).
+//
+// spec/SourceMap.tla models the hint filter (internal/sourcemapx/filter.go) as
+// a state machine over token streams cut into Write calls, states the
+// reference result (output = input minus hints; a mapping's generated position
+// = line/column of the next output byte; independent of the chunking; the
+// offset rule of WriteJS; removeWhitespace keeps hints) and TLC checks the
+// machine against it while emitting every (stream, chunking) scenario with the
+// predicted output bytes and mappings. streams.go replays every scenario
+// through the real Filter / removeWhitespace / WriteJS and compares the bytes
+// written and the decoded source map with the prediction. programs.go builds
+// whole programs (MiniGo programs with stack-recording trace points, programs
+// that panic on a known line, a program with an .inc.js file) with and without
+// minification and validates out.js / out.js.map against what the mapping rule
+// of the specification says about statement starts.
 package c19
+
+import (
+	"os"
+
+	"verif/core"
+	"verif/gjs"
+	"verif/reg"
+)
+
+func init() { reg.Register("C19", "model_checking", Run) }
+
+// Run is the C19 check.
+func Run(c *core.Ctx, pool *gjs.Pool) {
+	c.Assumef("generated columns are counted in bytes (as Filter.Write does); a mapping that follows a non-ASCII character on its generated line is reported, because consumers count UTF-16 code units")
+	c.Assumef("a stack frame is resolved like Node and the browsers do: the last mapping at or before (line, column) in generated order, not restricted to the same line")
+	c.Assumef("original columns are compared as the compiler writes them (go/token columns, 1-based); the property is about files and lines")
+	c.Assumef("with a map file and without minification the prelude is re-printed by esbuild, so the byte comparison with the map-less build covers the compiled packages (from the first $packages[ line on) in plain builds and the whole file in minified builds")
+	if os.Getenv("VERIF_C19_ONLY") != "programs" { // development aid; the evidence says which halves ran
+		runStreams(c)
+	} else {
+		c.Set("streams_half_skipped", true)
+	}
+	if c.InfraErr != nil {
+		return
+	}
+	runPrograms(c, pool)
+	if c.InfraErr != nil {
+		return
+	}
+	c.Set("rule", "streams: TLC enumerates every token stream over the family alphabets up to the configured length (plus VERIF_SEED longer streams) x every chunking into Write/WriteJS calls that does not split a hint; one evaluation = one (stream, chunking) replayed through the real Filter and compared (bytes written + decoded mappings); distinct_nontrivial = distinct streams that contain a hint or a JavaScript block. programs: one evaluation = one validated fact of an emitted out.js/out.js.map (a mapping in range and resolvable, a byte-identity comparison, a stack frame resolved to its Go line)")
+	c.Set("checker_cmd", "tlc SourceMap (INVARIANTS TypeOK NoPanic Refines OutputIsInputMinusHints NoMagicInOutput MappingAtNextByte ReturnsLen MinifyKeepsSkeleton Emit)")
+}
